@@ -17,7 +17,16 @@ def variants(script, rng, k):
         ends_with_array = script["items"] and script["items"][-1][0] == "arr"
         final = rng.random() < 0.6 or ends_with_array
         lay = gen.Layout(random.Random(rng.random()), newline=nl, final_newline=final, tab=tab)
-        out.append((gen.render(script, lay), {"newline": repr(nl), "tab": repr(tab), "final_newline": final}))
+        text = gen.render(script, lay)
+        tail = ""
+        if not final and not text.endswith(("\n", "\r")) and rng.random() < 0.4:
+            # the text ends in a comment (no line end after it): whatever the comment says, it is a comment
+            tail = rng.choice([" # converted from examples/teleport.xbb", "#x.xbb", " # see lib/a.bb", "#", " # name x",
+                               "# .xbb", " #include \"a.xbb\""])
+            if text.endswith(" "):
+                tail = tail.lstrip()          # a fourth space would make a TAB token
+            text += tail
+        out.append((text, {"newline": repr(nl), "tab": repr(tab), "final_newline": final, "ends_in_comment": bool(tail)}))
     return out
 
 
